@@ -190,13 +190,39 @@ def PhaseState.all : PhaseState → List Phase
   | .single p => [p]
   | .multi ps => ps
 
-/-- `copy_like` as far as phase, T, P go: a `Stream` takes the phase state of the source, a
-`MultiStream` keeps its own phases and gains the source's phases it does not have yet
+/-- the other spelling of a liquid or solid phase (`'l'` ↔ `'L'`, `'s'` ↔ `'S'`) -/
+def Phase.swapCase : Phase → Option Phase
+  | .l => some .L
+  | .L => some .l
+  | .s => some .S
+  | .S => some .s
+  | .g => none
+
+/-- `phase in phase_indexer`: a `PhaseIndexer` also answers for the other spelling of a phase it holds -/
+def knows (ps : List Phase) (p : Phase) : Bool :=
+  ps.contains p || (match p.swapCase with
+                    | some q => ps.contains q
+                    | none => false)
+
+/-- `_expand_phases(others)` guarded by "some phase is not in the indexer": only then the phase tuple
+grows, and then by *all* of `others` -/
+def expandWith (ps others : List Phase) : List Phase :=
+  if others.all (knows ps) then ps else canon (ps ++ others)
+
+/-- `PhaseIndexer.compatible_with`: the sorted phase tuples agree after lower-casing -/
+def compatible (ps qs : List Phase) : Bool :=
+  (canon ps).map Phase.lower == (canon qs).map Phase.lower
+
+/-- `copy_like` as far as phase, T, P go: a `Stream` takes the phase state of the source; a
+`MultiStream` keeps its own phases and gains the source's when it cannot hold them
 (`MaterialIndexer.copy_like` → `_expand_phases`) -/
 def copyLike (recv : St α) (f : Feed α) : St α :=
   { ph := (match recv.ph with
            | .single _ => f.ph
-           | .multi ps => .multi (canon (ps ++ f.ph.all))),
+           | .multi ps =>
+             match f.ph with
+             | .single p => .multi (expandWith ps [p])
+             | .multi qs => if canon ps == canon qs || compatible ps qs then .multi ps else .multi (canon (ps ++ qs))),
     T := f.T, P := f.P, empty := false }
 
 /-- `set_main_phase` inside `ChemicalIndexer.mix_from`: a single-phase receiver takes the phase of
@@ -209,13 +235,13 @@ def mainPhase (ph : PhaseState) (fs : List (Feed α)) : PhaseState :=
     | .multi _ => ph
   | _, _ => ph
 
-/-- `MaterialIndexer.mix_from`: a multi-phase receiver gains the phases of the inlets it does not have
-yet (`_expand_phases`); a single-phase receiver is left alone.  An inlet that is the receiver itself has,
+/-- `MaterialIndexer.mix_from`: a multi-phase receiver gains the phases of the inlets when it cannot
+hold one of them (`_expand_phases`; `'L'` is held by an indexer that has `'l'`); a single-phase receiver is left alone.  An inlet that is the receiver itself has,
 by then, the receiver's phases and adds none. -/
 def expandMulti (ph : PhaseState) (fs : List (Feed α)) : PhaseState :=
   match ph with
   | .single p => .single p
-  | .multi ps => .multi (canon (ps ++ ((fs.filter (fun f => !f.isSelf)).map (·.ph.all)).foldr (· ++ ·) []))
+  | .multi ps => .multi (expandWith ps (((fs.filter (fun f => !f.isSelf)).map (·.ph.all)).foldr (· ++ ·) []))
 
 /-- the phase state after `self._imol.mix_from(streams)` -/
 def mixPhase (ph : PhaseState) (fs : List (Feed α)) : PhaseState :=
